@@ -82,8 +82,9 @@ def gen_chan(ctx, per):
                         tot = max(tot, W)
                         ns = [tot // W + (1 if w < tot % W else 0) for w in range(W)]
                         spur = rng.choice([0, 0, 200]) if rm == "mutex" else 0
+                        fx = rng.choice([0, 0, 300]) if (rm == "sync" or wl == "sync") else 0
                         sched = pct(rng) if i % 3 else rnd(rng)
-                        r = C01.chan_run(wl, rm, req, 0, tot, ns, sched, spur)
+                        r = C01.chan_run(wl, rm, req, 0, tot, ns, sched, spur, fx)
                         runs.append(r)
     return runs
 
